@@ -56,12 +56,17 @@ SPEC = dict(
           "put of its height is recorded with an unconstrained result (put publishes to the cache before the files exist); non-trivial = two "
           "operations of different goroutines on one height overlap. "
           "stress (L3 only, plain binary and -race binary): 'reput' (sequential: a stored block is put again, all four PutODS/PutODSQ4 "
-          "combinations - deterministic replay for the descriptor oracle), directed rounds 'lazyq4' (4 readers holding accessors of a k=32 "
+          "combinations - deterministic replay for the descriptor oracle), 'parityrace' (32 rounds plain / 12 under -race in the quick "
+          "tier, run first and never cut by the time budget, collector off: three blocks stored in full, 6-8 readers per block obtain the SAME "
+          "file-backed accessor through the cached store (recent cache off), leave a two-stage barrier (channel close, then a bounded spin "
+          "until all are running) together and make their FIRST read an axis half with index >= size/2, i.e. through the lazy open of the "
+          "parity file; then a second read, close, removal, descriptor count: an accessor that opens its parity file more than once keeps "
+          "only the last handle - fd-leak-until-gc, and data-race-store.file.ODSQ4 under -race), directed rounds 'lazyq4' (4 readers holding accessors of a k=32 "
           "block (k=8 under the race detector in the quick tier) + 2 arriving readers while PutODSQ4 adds / RemoveODSQ4+PutODSQ4 re-creates "
           "its parity file; the readers signal on a channel when they have their accessor and the writer opens the gate), 'cachedremove' "
           "(cached GetByHeight against RemoveODSQ4), and stress rounds of 6-10 goroutines x 10-19 operations over 3 heights (h, h+1024, "
           "h+2048) with up to 5 reads per accessor (sample, axis half, shares, stream, row namespace data, roots/hash/size, every byte "
-          "compared); shapes interleaved; the quick plan (264 rounds) takes about 6 s in the plain binary and is cut at 14 s there and at "
+          "compared); shapes interleaved; the quick plan (296 rounds) takes about 7 s in the plain binary and is cut at 14 s there and at "
           "10 s in the -race binary (a loaded machine does fewer rounds, never a different verdict). After every round: all blocks removed, "
           "the goroutines the caches spawned for evictions waited for (goroutine dump, no sleep), then /proc/self/fd must hold no file of "
           "the store directory."),
@@ -74,6 +79,7 @@ SPEC = dict(
         "Store/ConcAtomic.v models the mutators' disk effects (create ODS/Q4, link; unlink, delete) under an exclusive per-stripe lock; the caches in front of the files and the hash-stripe lock are not in that model; the file system is a map with atomic single effects",
         "Go scheduling: which interleavings occur is explored by stress (seed-derived scripts, directed gates), not proved and not replayable step by step; a replay re-runs the round's scripts up to 300 times; data-race freedom = no report of the Go race detector during TestVerifC08Race (the same rounds in a binary built with -race; at its start a child process commits a deliberate race to prove that reports reach the harness); all puts of a height pass one square object whose roots were computed first (as callers of Put do), so the published in-memory accessor is read-only",
         "the watchdog reports a call into the store (operation, read through an accessor, Close) that has not returned after 40 s (the cache force-closes after 60 s); only calls into the code under test are timed, never the harness's own waits; file descriptors are counted in /proc/self/fd by path prefix of the store directory once the store is at rest: every operation returned, every accessor closed, every block removed and no goroutine with a frame of the store packages left (the eviction goroutines `go ac.close()` are waited for, up to 90 s, then reported as evict-hangs); a descriptor still open then was dropped without Close(): sig fd-leak-until-gc if a garbage collection (os.File finalizer) releases it, fd-leak otherwise; for the micro rounds, which share one store per cache configuration so that content carries over, the count is taken once after the last of them",
+        "the lazy once-only open of the parity file (ODSQ4.tryLoadQ4: atomic attempted flag, re-checked under q4Mu) has NO Coq model: the two goroutines would have to be placed between the lock-free check and the lock, which the real code offers no blocking point for, so a model could not be tied to the code by scripted schedules; the lock translator sees only that q4Mu is taken, not the re-check. It is covered by L3 only: the 'parityrace' rounds (descriptor count at rest with the collector off, race detector), whose hit rate per round is 20-40% on a loaded machine, i.e. a miss of all 32+12 rounds of a quick run is improbable (< 1e-3) but not impossible",
         "observation, not counted as a violation: proofsCache.AxisRoots hands the SAME *share.AxisRoots to every holder of a cached accessor, and AxisRoots.Hash()/Equals() (celestia-app DataAvailabilityHeader) memoize the hash inside that value without synchronisation, so two holders that hash the returned roots race (race detector report in da.(*DataAvailabilityHeader).Hash); no caller inside celestia-node hashes roots obtained from an accessor, and the harness compares them field by field",
     ],
 )
